@@ -463,7 +463,11 @@ def is_coplanar(*args: PointTensor | LineTensor, tol: float = EQ_TOL_ABS) -> npt
     """
     n = args[0].dim + 1
     result = np.isclose(det(np.stack(np.broadcast_arrays(*[a.array for a in args[:n]]), axis=-2)), 0, atol=tol)
-    if not np.any(result) or len(args) == n:
+    if len(args) == n:
+        return result
+    # the result has the collection shape of all arguments
+    result = np.array(np.broadcast_to(result, np.broadcast_shapes(*(a.shape[: a.free_indices] for a in args))))
+    if not np.any(result):
         return result
     covariant = args[0].tensor_shape[1] > 0
     e = LeviCivitaTensor(n, covariant=covariant)
